@@ -140,18 +140,25 @@ func (cl *Cluster) StartRep(p *RepProc) error {
 	}
 	go func(c *exec.Cmd) { c.Wait(); lf.Close() }(p.cmd)
 	if p.agent == nil || p.agent.ProcessState != nil {
-		af, _ := os.OpenFile(p.Log+".agent", os.O_CREATE|os.O_APPEND|os.O_WRONLY, 0644)
-		p.agent = exec.Command(cl.Bin, "sync-agent", "--listen", p.IP+":9504", "--listen-port-range", fmt.Sprintf("%d-%d", p.PortBase, p.PortBase+19))
-		p.agent.Dir = p.Dir
-		p.agent.Stdout, p.agent.Stderr = af, af
-		p.agent.SysProcAttr = &syscall.SysProcAttr{Pdeathsig: syscall.SIGKILL, Setpgid: true}
-		if err := p.agent.Start(); err != nil {
+		if err := cl.startAgent(p); err != nil {
 			return err
 		}
-		go func(c *exec.Cmd) { c.Wait(); af.Close() }(p.agent)
 	}
 	p.Starts++
 	cl.event("start replica %d (%s) #%d", p.Idx, p.IP, p.Starts)
+	return nil
+}
+
+func (cl *Cluster) startAgent(p *RepProc) error {
+	af, _ := os.OpenFile(p.Log+".agent", os.O_CREATE|os.O_APPEND|os.O_WRONLY, 0644)
+	p.agent = exec.Command(cl.Bin, "sync-agent", "--listen", p.IP+":9504", "--listen-port-range", fmt.Sprintf("%d-%d", p.PortBase, p.PortBase+19))
+	p.agent.Dir = p.Dir
+	p.agent.Stdout, p.agent.Stderr = af, af
+	p.agent.SysProcAttr = &syscall.SysProcAttr{Pdeathsig: syscall.SIGKILL, Setpgid: true}
+	if err := p.agent.Start(); err != nil {
+		return err
+	}
+	go func(c *exec.Cmd) { c.Wait(); af.Close() }(p.agent)
 	return nil
 }
 
